@@ -5,7 +5,7 @@
     [mem s i = N.testbit (word s (i / 64)) (i mod 64)] ([word] = the [i/64]-th word, see [c12_mem_nth]).
     Every statement holds for every number of words NW (in particular every NW >= 1). *)
 From Coq Require Import String Ascii NArith List Bool Sorted.
-From RlibV Require Import C12.Model C12.Corr C12.ProofsBase C12.ProofsOps C12.ProofsAbs C12.ProofsIter C12.ProofsHist.
+From RlibV Require Import C12.Model C12.Corr C12.ProofsBase C12.ProofsOps C12.ProofsAbs C12.ProofsIter C12.ProofsHist C12.ProofsEnc.
 Import ListNotations.
 Local Open Scope N_scope.
 
@@ -124,3 +124,10 @@ Proof. exact history_correct. Qed.
 (** hence a correspondence case that matches the model satisfies the specification *)
 Theorem c12_model_check_spec_check : forall c : case, case_ok c -> model_check c = true -> spec_check c = true.
 Proof. exact model_check_spec_check. Qed.
+
+(** the two compact notations the case printer uses for observed values denote what they should:
+    [bits_str ws] is the rendering, [idx_list 0 ws] the member list, of the bitset with words [ws] *)
+Theorem c12_enc_display : forall ws : bitset, display ws = Some (bits_str ws).
+Proof. exact bits_str_display. Qed.
+Theorem c12_enc_members : forall ws : bitset, idx_list 0 ws = filter (mem ws) (indices ws).
+Proof. exact idx_list_members. Qed.
